@@ -315,7 +315,7 @@ pub fn run(cfg: &Cfg, rep: &mut Report) -> PropMeta {
     run_cases(cfg, "synthetic_noise", cfg.n(1500, 30000) as u64, rep, |i, rng, rep| synthetic_noise(cfg, "synthetic_noise", i, rng, rep));
     PropMeta {
         id: "C07", level: "exploration",
-        rule: "every pool element produced by random BFV/BGV operation programs (sizes 2..16, every level, budgets from full down to 0, 1..6 primes so the 1..6-word norm paths are hit) plus fresh encryptions (pk/sk) and k-fold sums k=2..64; distinct = distinct (scheme, prime count, size, level, exact budget) tuples",
+        rule: "every pool element produced by random BFV/BGV operation programs (sizes 2..16, every level, budgets from full down to 0, 1..6 primes so the 1..6-word norm paths are hit) plus fresh encryptions (pk/sk) and k-fold sums k=2..64; distinct = distinct (scheme, prime count, size, level, exact budget) tuples. Fresh encryptions go through a per-call varying Encryptor entry point (value-returning, destination over a used ciphertext, caller-supplied u sampler, seeded+expanded); the bound of a public-key encryption made one level up and switched down is error/p + rounding of the switch",
         assumptions: vec!["definition of the budget as implemented and documented: bitlen(q) - bitlen(||[t*c(s)]_q||) - 1 for BFV, with ||[c(s)]_q|| for BGV, clamped at 0".into(),
             "exact-decryption direction asserted when 2*norm*(1+2^-10) < q (margin for the library's approximate rounding)".into(),
             "oracle decryptor limited to N <= 1024 (quick: <= 256)".into()],
